@@ -108,7 +108,7 @@ def inc(by: uint256 = 1) -> uint256:
 event Transfer:
     sender: indexed(address)
     receiver: indexed(address)
-    value: uint256
+    amount: uint256
 
 balanceOf: public(HashMap[address, uint256])
 allowance: public(HashMap[address, HashMap[address, uint256]])
@@ -122,23 +122,23 @@ def __init__(supply: uint256):
     self.balanceOf[msg.sender] = supply
 
 @external
-def transfer(to: address, value: uint256) -> bool:
-    self.balanceOf[msg.sender] -= value
-    self.balanceOf[to] += value
-    log Transfer(sender=msg.sender, receiver=to, value=value)
+def transfer(to: address, amount: uint256) -> bool:
+    self.balanceOf[msg.sender] -= amount
+    self.balanceOf[to] += amount
+    log Transfer(sender=msg.sender, receiver=to, amount=amount)
     return True
 
 @external
-def approve(spender: address, value: uint256) -> bool:
-    self.allowance[msg.sender][spender] = value
+def approve(spender: address, amount: uint256) -> bool:
+    self.allowance[msg.sender][spender] = amount
     return True
 
 @external
-def transferFrom(owner: address, to: address, value: uint256) -> bool:
-    self.allowance[owner][msg.sender] -= value
-    self.balanceOf[owner] -= value
-    self.balanceOf[to] += value
-    log Transfer(sender=owner, receiver=to, value=value)
+def transferFrom(owner: address, to: address, amount: uint256) -> bool:
+    self.allowance[owner][msg.sender] -= amount
+    self.balanceOf[owner] -= amount
+    self.balanceOf[to] += amount
+    log Transfer(sender=owner, receiver=to, amount=amount)
     return True
 """}},
     "many_internal": {"target": "many.vy", "files": {"many.vy": "\n".join(
